@@ -123,6 +123,10 @@ def corpus(tier):
         out.append((f"Q:up:if(a[{s2}])a[{s1}]=b", loop("i", "up", body), 0))
         body = f"b(i) = a({s2})\na({s1}) = 2.0 * b(i)"
         out.append((f"Q:up:b=a[{s2}];a[{s1}]=2b", loop("i", "up", body), 0))
+    # the same array WRITTEN by two different statements
+    for s1, s2 in itertools.product(psubs, psubs):
+        body = f"t = 0.5 * b(i)\na({s1}) = t\na({s2}) = -t"
+        out.append((f"W:up:a[{s1}]=t;a[{s2}]=-t", loop("i", "up", body), 0))
     # 2-deep nests, analysed at the outer (0) and the inner (1) loop
     for s_w, s_r in itertools.product(SUBS2, SUBS2):
         body = f"q{s_w} = q{s_r} + 1.0"
